@@ -47,8 +47,15 @@ def bad_datagram(kind: str, ip: str, variant: int = 0) -> bytes:
     raise ValueError(kind)
 
 
+GOOD_TYPES = ["ac", "AC", "a1", "fd"]      # air conditioners and other Midea appliances are equally 'good' responders
+
+
+def good_name(i: int) -> str:
+    return f"net_{GOOD_TYPES[i % len(GOOD_TYPES)]}_{i:04X}"
+
+
 def good_datagram(i: int, ip: str) -> bytes:
-    return sd.reply(2 + i % 2, 0x1000 + i, ip, 6444, f"{i:032d}", f"net_ac_{i:04X}")
+    return sd.reply(2 + i % 2, 0x1000 + i, ip, 6444, f"{i:032d}", good_name(i))
 
 
 def configs(tier):
@@ -151,7 +158,7 @@ def run_shard(shard, tier) -> Stats:
                 else:
                     for d in out[1]:
                         i = int(d.ip.rsplit(".", 1)[1]) - 10
-                        if d.id != 0x1000 + i or d.name != f"net_ac_{i:04X}":
+                        if d.id != 0x1000 + i or d.name != good_name(i):
                             prob = "device reported with another host's identity"
             if prob:
                 bads = "+".join(sorted(set(r for r in roles if r != "good"))) or "none"
